@@ -87,7 +87,7 @@ PROPS = {
                 "'/'), seeded subsets of size 3..6 and five 'rich' sets (a-x a/x a.x, UTF-8, nested directories); for each set every "
                 "prefix over {a,b,/} of length <= 3 not starting with '/', delimiter absent and '/' (and 'b' on memory/bolt), V1 or "
                 "V2; the memory backend runs versioned with a delete-marked ghost key; every set is deleted again and the bucket "
-                "re-listed. fs backends: conflict-free sets only. distinct_nontrivial = distinct (backend, key set, prefix, delimiter).",
+                "re-listed. fs backends: conflict-free sets only. distinct_nontrivial = distinct (backend, key set, prefix, delimiter). A rich set of names a directory walk may treat specially (segments beginning with a dot, a blank, a tilde; ending with a dot); every rich set runs on every backend also in the quick tier.",
         "explanation": "Theorems: Prefix.Match equals the declarative classification (string prefix, first delimiter after it) for "
                        "every key/prefix/delimiter in the property's domain, and the unpaginated listing is exactly filter+group of the "
                        "sorted live keys. Tie: ListObjects responses (keys in order, sizes, ETags, common prefixes) of the Go handlers "
@@ -118,7 +118,7 @@ PROPS = {
                 "upload-part with part numbers in {1..4, 7, 9999, 10000, 10001, 0, -1} incl. re-uploads and empty bodies, complete with "
                 "the full ascending list / a subset / a permutation / an unknown number / a wrong ETag / a duplicate / unquoted ETags / "
                 "an empty list, abort, get, list-parts, list-uploads over two keys with several simultaneous uploads; final probe "
-                "GET/HEAD of every key and listing of every pending upload. distinct_nontrivial = distinct successful completes.",
+                "GET/HEAD of every key and listing of every pending upload. distinct_nontrivial = distinct successful completes. c06CompleteOverlap (every backend): the backend write of a complete is held open while an abort, a part upload or a second complete of the same upload arrives; both finish, exactly one of complete / abort takes effect.",
         "explanation": "Theorems over the uploader model: an accepted complete stores exactly the concatenation of the latest upload of "
                        "each listed part with the composite ETag and the initiation metadata and removes the upload; a rejected "
                        "complete and an abort leave object and pending upload state as required. Tie: every response (status, code, "
@@ -136,7 +136,7 @@ PROPS = {
                 "following NextPartNumberMarker and single pages from markers {0,1,2,4,13,14,41,42,10^6}; ListMultipartUploads walks "
                 "for every max-uploads 1..n+1 over six prefix/delimiter combinations following (NextKeyMarker, NextUploadIdMarker); "
                 "each walk is checked by a model-independent oracle (bound, every entry once, concatenation = unpaginated, each common "
-                "prefix once) and page by page against the model. distinct_nontrivial = distinct walks. A fixed history lists uploads whose groups are not neighbours in key order (/a/x, /b/x, a/y) unpaginated against the model.",
+                "prefix once) and page by page against the model. distinct_nontrivial = distinct walks. A fixed history lists uploads whose groups are not neighbours in key order (/a/x, /b/x, a/y) unpaginated against the model. Every eighth history uses keys with white space at either end.",
         "explanation": "Theorems over the uploader model's listings (exactness w.r.t. the pending uploads / held parts, paging). Tie: "
                        "every page from the Go handlers vs the extracted model plus the walk oracle on the implementation's pages.",
         "assumptions": [],
@@ -171,7 +171,7 @@ PROPS = {
                 "bases (first / second base, configured with stray dots and a port); fall-backs (localhost, the base itself, a "
                 "multi-label prefix, an unrelated host); path-style with an extra leading and with a trailing slash. A recording "
                 "backend wrapper reports the bucket/key each handler addressed. distinct_nontrivial = distinct (variant, method, "
-                "sub-resource, bucket, key). Keys named like their bucket (bkt, bkt/k, bkt.s3.example.com/k) are in the pool.",
+                "sub-resource, bucket, key). Keys named like their bucket (bkt, bkt/k, bkt.s3.example.com/k) are in the pool. Twins for every order and combination of the two host options, host-bucket named explicitly off included.",
         "explanation": "Theorems: the routed (bucket, object) of a host-style request equals that of the path-style request for every "
                        "bucket label, key path and base list; unmatched hosts fall back unchanged; extra slashes do not change the "
                        "address. Tie: recorded backend addresses of the Go handlers vs the extracted router; spec oracle: canonical "
@@ -237,7 +237,7 @@ PROPS = {
     "C15": {
         "title": "Acknowledged state of the persistent backends survives restart",
         "harness": "c15",
-        "model": "Model/Mem.v state = the persistent component, Model/Uploader.v ustate = the volatile component dropped by a restart; Model/Crash.v: PutObject / DeleteObject of the fs backends as sequences of state-changing file-system calls, loadMeta's freshness rule, a kill = a prefix of the sequence (optionally half of a write)",
+        "model": "Model/Mem.v state = the persistent component, Model/Uploader.v ustate = the volatile component dropped by a restart; Model/CrashDirs.v: the directory side of the same writes (MkdirAll before the create, the pruning loop of the delete; phantoms = directories no key lies below); Model/Crash.v: PutObject / DeleteObject of the fs backends as sequences of state-changing file-system calls, loadMeta's freshness rule, a kill = a prefix of the sequence (optionally half of a write)",
         "rule": "(a) bolt file, multi-bucket fs and single-bucket fs with an on-disk metadata store, each on a real temp directory: 10 (quick) "
                 "/ 120 (thorough) seeded C02-style histories (plus puts of random binary bodies with metadata, keys with spaces and "
                 "UTF-8) interleaved with 1..3 in-process restarts; before and after every restart the full probe (bucket list, listings, "
@@ -257,7 +257,7 @@ PROPS = {
                        "and the next PUT repairs the key — and PutObject is NOT crash-atomic (C15_fs_put_not_crash_atomic_refuted = known "
                        "finding D31). Tie: in-process restarts, the real binary under SIGKILL, and per-call-index prediction of the post-crash "
                        "state. PARTIAL: that the page cache outlives the process and that one write/unlink is atomic w.r.t. SIGKILL is the "
-                       "OS's; bbolt's transaction atomicity is trusted (one model step) and only exercised by the random kills.",
+                       "OS's; bbolt's transaction atomicity is trusted (one model step) and only exercised by the random kills. Directory side (CrashDirs.v): uninterrupted put and delete keep every directory above a key, at every crash point of either the directories without a key are ancestors of the in-flight key and no other key's file is touched, a complete PUT of the key repairs it, and both leave empty directories when killed (refuted atomicity, known finding D34); the check compares the phantom common prefixes of the next process's listing with the model's prediction for the crash point.",
         "trusted_extra": ["harness/crashfs.go (file-system wrapper that stops a request at a chosen call) and harness/extserver.go (TCP forwarder to the server process built from /repo/cmd/gofakes3, SIGKILL restarts)"],
         "assumptions": ["a kill falls between two file-system calls or inside a write (harness/crashfs.go); data handed to the kernel survives the process",
                         "bbolt Update transactions are atomic and durable (trusted, not modelled)"],
@@ -272,7 +272,7 @@ PROPS = {
                 "metadata sets (none; Content-Type + x-amz-meta; Content-Type + Content-Encoding + Content-Disposition + a 900-byte "
                 "value), uploaded by PUT (with and without Content-MD5), browser-form POST, copy, and Backend.PutObject; each followed "
                 "by GET and HEAD over HTTP (and through the Backend API) and a listing of the key; later operations on other keys, "
-                "then the same reads again. distinct_nontrivial = distinct (backend, integrity, upload path, size, key). Copies are made inside the bucket and, every third one, from a second bucket that holds an object of the destination's name (which must stay what it is). On the key-value backends the twin-key groups include keys that differ by leading or doubled slashes (lead, /lead, //lead).",
+                "then the same reads again. distinct_nontrivial = distinct (backend, integrity, upload path, size, key). Copies are made inside the bucket and, every third one, from a second bucket that holds an object of the destination's name (which must stay what it is). On the key-value backends the twin-key groups include keys that differ by leading or doubled slashes (lead, /lead, //lead). Two keys carry white space at their ends (blank-padded; a tab and a trailing blank).",
         "explanation": "Theorems: read-your-writes with the exact body and the metadata sent (C01_roundtrip), HEAD/GET agreement, "
                        "stability under operations on other keys (frame), listing entry = current version. Tie: the responses of the Go "
                        "handlers and of the Go Backend API vs the extracted model, with length and MD5 recomputed by the checker.",
@@ -291,7 +291,7 @@ PROPS = {
                 "missing or duplicate parts; aws-chunked incl. truncated with hostile decoded lengths) x hostile headers (Range, "
                 "Content-MD5, X-Amz-Copy-Source, Content-Length, conditionals, force-delete, oversized metadata). Every request runs "
                 "under recover() and a 5 s deadline; every 25 requests a canary sequence on a fresh bucket and on the fuzzed bucket is "
-                "compared with the model. distinct_nontrivial = distinct (backend, config, status, code, method, header count). The corpus and the fuzz pool hold keys of 200-210 bytes in 2-, 3- and 4-byte characters (written, read, listed, deleted). The versioned store holds delete markers between live keys of a group, last in a group and as a group of their own; the corpus pages object listings over them (max-keys 1..6 x 11 prefix / delimiter / marker combinations).",
+                "compared with the model. distinct_nontrivial = distinct (backend, config, status, code, method, header count). The corpus and the fuzz pool hold keys of 200-210 bytes in 2-, 3- and 4-byte characters (written, read, listed, deleted). The versioned store holds delete markers between live keys of a group, last in a group and as a group of their own; the corpus pages object listings over them (max-keys 1..6 x 11 prefix / delimiter / marker combinations). Signed, huge, non-hexadecimal and empty aws-chunked chunk-size fields, as an object and as a part.",
         "explanation": "Theorems: no reachable state makes a modelled handler panic (object API, range, uploader complete/list with any "
                        "part number or marker, version listing), an error leaves the state unchanged, and the status of an error equals "
                        "the table entry of its code. Tie: model-free response oracle (extracted from Coq) on every response of the Go "
@@ -315,7 +315,7 @@ PROPS = {
                 "order of its requests reproduces every observed response on the model; sequential probes between rounds; (c) 16 clients x "
                 "40 simultaneous versioned PUTs: ids pairwise distinct, each id serves exactly its upload; (d) the workload (reduced) in a "
                 "binary built with -race: a report with a conflicting access in /repo code is a violation. Watchdogs report hangs. "
-                "distinct_nontrivial = distinct (backend, versioned, round). c07CopyStorm (every backend, also under the race detector): 8 clients copy one object carrying an ACL, user metadata and a content type to keys of their own while others GET / HEAD it; the source must read exactly as uploaded throughout and every copy is the source without its ACL.",
+                "distinct_nontrivial = distinct (backend, versioned, round). c07CopyStorm (every backend, also under the race detector): 8 clients copy one object carrying an ACL, user metadata and a content type to keys of their own while others GET / HEAD it; the source must read exactly as uploaded throughout and every copy is the source without its ACL. c07AutoBucketFirstUse (memory, bolt, fs): with the auto-bucket option six first requests for a bucket are held until all have found it absent; every one is served.",
         "explanation": "Theorems: for every number of clients, every program and EVERY schedule of the section model, the shared state and "
                        "each client's responses equal those of the sequential execution of the operations in Commit order, which respects "
                        "program order; Post delivers exactly what Commit captured (no torn reads). Tie: forced interleavings and "
